@@ -212,10 +212,6 @@ def analyse(case, reac=None, prod=None):
     d = len(basis)
     out = {"keys": keys, "names": names, "A": A, "n": n, "rank": len(piv), "nullity": d, "basis": basis,
            "R": R, "piv": piv, "free": free, "ray": None, "feasible": None, "witness": None, "certificate": None}
-    nr = len(case["reac"] if reac is None else reac)
-    if nr == 0 or nr == n:
-        # an empty side: only compositions that cancel within the other side could balance; treat through the algebra
-        pass
     if d == 0:
         out["feasible"] = False
     elif d == 1:
@@ -287,8 +283,6 @@ def simple_formula_composition(txt):
                 pos[0] = j
             else:
                 raise ValueError(txt)
-            if ch == "(":
-                pass
             j = pos[0]
             while j < len(body) and body[j].isdigit():
                 j += 1
@@ -456,7 +450,7 @@ def _raw_synthetic(draw, max_species=6, max_keys=4, decimals=True):
         else:
             comp = dict(comps[draw(st.integers(0, i - 1))])
         comps.append(comp)
-    if decimals and draw(st.integers(0, 15)) == 15:
+    if decimals and draw(st.integers(0, 7)) == 7:
         j = draw(st.integers(0, n - 1))
         k = keys[draw(st.integers(0, nk - 1))]
         comps[j] = dict(comps[j])
